@@ -14,6 +14,9 @@ package proxymux
 //	             comma-separated hex chunks, one Read result each ("-" = an empty chunk, i.e. a
 //	             (0,nil) read — also BEFORE the detection byte; "." = nothing), then EOF
 //	B<c>         the client of conn c sends its chunks
+//	G<c>=<chunks> like C, but the conn's first data Read is GATED: once the client has sent (B) it
+//	             copies the bytes into the caller's buffer and returns only at R<c> — the first
+//	             reads of several connections overlap, in any release order
 //	E            the base listener's Accept fails (EMFILE-like)
 //	late<c>=<hex> conn c is returned by base.Accept() at the moment base.Close() is called
 //	             (accepted by the kernel just before the port is closed)
@@ -57,6 +60,12 @@ type c18FakeConn struct {
 	mu       sync.Mutex
 	release  chan struct{}
 	released bool
+	// a GATED conn: its first data Read copies the bytes into the caller's buffer and returns
+	// only when the gate opens (a reader descheduled between "bytes in the buffer" and "caller
+	// looks at them"), so that the first reads of several connections overlap
+	gate     chan struct{}
+	gateOpen bool
+	gateUsed bool
 	hangup   bool
 	closed   bool
 	nClose   int
@@ -82,7 +91,24 @@ func (c *c18FakeConn) Read(p []byte) (int, error) {
 	} else {
 		c.chunks[0] = cur[n:]
 	}
+	if c.gate != nil && n > 0 && !c.gateUsed {
+		c.gateUsed = true
+		g := c.gate
+		c.mu.Unlock()
+		<-g // the bytes are in p; the Read has not returned yet
+		c.mu.Lock()
+	}
 	return n, nil
+}
+
+// openGate lets a gated first Read return.
+func (c *c18FakeConn) openGate() {
+	c.mu.Lock()
+	defer c.mu.Unlock()
+	if c.gate != nil && !c.gateOpen {
+		c.gateOpen = true
+		close(c.gate)
+	}
 }
 
 func (c *c18FakeConn) Write(p []byte) (int, error) { return len(p), nil }
@@ -285,6 +311,24 @@ func c18RunHistory(op string) (out string, oracle []string) {
 				c := newConn(id, payload)
 				c.setHanded(base.offer(c18AcceptRes{conn: c}))
 			}
+		case tok[0] == 'G':
+			id, payload, ok := c18ParseConnTok(tok[1:])
+			if ok && conns[id] == nil {
+				c := newConn(id, payload)
+				c.gate = make(chan struct{})
+				c.setHanded(base.offer(c18AcceptRes{conn: c}))
+			}
+		case tok[0] == 'R':
+			// the gated Read returns — only if it is under way (the client has sent)
+			if id, err := strconv.Atoi(tok[1:]); err == nil && conns[id] != nil {
+				c := conns[id]
+				c.mu.Lock()
+				sent := c.released
+				c.mu.Unlock()
+				if sent {
+					c.openGate()
+				}
+			}
 		case tok[0] == 'B':
 			if id, err := strconv.Atoi(tok[1:]); err == nil && conns[id] != nil {
 				conns[id].send(false)
@@ -306,6 +350,7 @@ func c18RunHistory(op string) (out string, oracle []string) {
 	sort.Ints(ids)
 	for _, id := range ids {
 		conns[id].send(true)
+		conns[id].openGate()
 	}
 	synctest.Wait()
 	base.offer(c18AcceptRes{err: errors.New("verif: accept failed (EMFILE)")})
@@ -581,6 +626,8 @@ func c18MuxGen(r *vh.RNG, n int, emit func(op string, tags ...string)) {
 		{"mux LS LH A0 A1 C0=0501 B0 C1=47 B1", "both"},
 		{"mux LS LH A0 A1 C0=-,0501 B0 C1=-,-,47,45 B1", "empty-read-before-first-byte"},
 		{"mux LS LH C0=-,05,-,01 B0 C1=-,16 B1 A1 A0", "empty-read-before-first-byte"},
+		{"mux LS LH A0 A1 G0=0501 B0 C1=4745 B1 R0 A0 A1", "overlapping-first-reads"},
+		{"mux LS LH A0 A1 G0=47 G1=0501 B0 B1 R1 A1 R0 A0 A1", "overlapping-first-reads"},
 		{"mux LS X0 LS A1 C0=05 B0", "re-register"},
 		{"mux LS A0 X0 LS", "close-with-accept-outstanding"},
 	}
@@ -592,6 +639,42 @@ func c18MuxGen(r *vh.RNG, n int, emit func(op string, tags ...string)) {
 		n--
 	}
 	for i := 0; i < n; i++ {
+		if i%4 == 3 {
+			// k connections whose first reads overlap: every byte is in its dispatcher's buffer
+			// before any Read returns; the Reads return in a drawn order; both listeners accept
+			k := r.Range(2, 4)
+			toks := []string{"LS", "LH", "A0", "A1"}
+			if r.Bool() {
+				toks = []string{"LH", "LS", "A1", "A0"}
+			}
+			for c := 0; c < k; c++ {
+				kind := "G"
+				if c > 0 && r.Chance(1, 4) {
+					kind = "C" // an ordinary read squeezed in between
+				}
+				toks = append(toks, fmt.Sprintf("%s%d=%s", kind, c, c18Payload(r)))
+			}
+			perm := make([]int, k)
+			for c := range perm {
+				perm[c] = c
+			}
+			for c := k - 1; c > 0; c-- {
+				j := r.Intn(c + 1)
+				perm[c], perm[j] = perm[j], perm[c]
+			}
+			for _, c := range perm {
+				toks = append(toks, "B"+strconv.Itoa(c))
+			}
+			for c := k - 1; c > 0; c-- {
+				j := r.Intn(c + 1)
+				perm[c], perm[j] = perm[j], perm[c]
+			}
+			for _, c := range perm {
+				toks = append(toks, "R"+strconv.Itoa(c), "A0", "A1")
+			}
+			emit("mux "+strings.Join(toks, " "), "random-overlapping-first-reads")
+			continue
+		}
 		var toks []string
 		nsub, nconn := 0, 0
 		var handed []int
@@ -610,11 +693,20 @@ func c18MuxGen(r *vh.RNG, n int, emit func(op string, tags ...string)) {
 			case k < 10 && nsub > 0:
 				toks = append(toks, "A"+strconv.Itoa(r.Intn(nsub)))
 			case k < 14:
-				toks = append(toks, fmt.Sprintf("C%d=%s", nconn, c18Payload(r)))
+				kind := "C"
+				if r.Chance(1, 3) {
+					kind = "G"
+				}
+				toks = append(toks, fmt.Sprintf("%s%d=%s", kind, nconn, c18Payload(r)))
 				handed = append(handed, nconn)
 				nconn++
 			case k < 18 && len(handed) > 0:
-				toks = append(toks, "B"+strconv.Itoa(handed[r.Intn(len(handed))]))
+				c := handed[r.Intn(len(handed))]
+				if r.Chance(1, 3) {
+					toks = append(toks, "R"+strconv.Itoa(c))
+				} else {
+					toks = append(toks, "B"+strconv.Itoa(c))
+				}
 			case k == 18 && r.Chance(1, 2):
 				toks = append(toks, "E")
 			case k == 19:
